@@ -307,11 +307,15 @@ pub fn install_panic_hook() {
             .location()
             .map(|l| (l.file().to_string(), l.line()))
             .unwrap_or_default();
-        // normalise /repo/ prefix
-        let file = file
-            .strip_prefix("/repo/")
-            .map(|s| s.to_string())
-            .unwrap_or(file);
+        // normalise the location of the repository (/repo, or a scratch copy in the selftests): keep the path from
+        // the crate's `src/` on, so that a violation class does not depend on where the subject was built from
+        let file = if file.starts_with("/root/.cargo/") || file.starts_with("/rustc/") {
+            file
+        } else if let Some(pos) = file.rfind("/src/") {
+            file[pos + 1..].to_string()
+        } else {
+            file.strip_prefix("/repo/").map(|s| s.to_string()).unwrap_or(file)
+        };
         LAST_PANIC.with(|p| *p.borrow_mut() = Some(PanicInfo { msg, file, line }));
         if !QUIET.with(|q| q.get()) {
             default(info);
